@@ -175,8 +175,49 @@ pub fn gen_history(ch: &mut Chooser, max_steps: usize) -> History {
     let vecs = ["v1", "v2", "v3", "v4"];
     let mut tick = 0;
     for _ in 0..steps {
-        let op = ch.weighted(&[4, 6, 3, 3, 4, 5, 6, 4, 3, 3, 2, 2, 4, 2, 1]);
+        let op = ch.weighted(&[4, 6, 3, 3, 4, 5, 6, 4, 3, 3, 2, 2, 4, 2, 1, 1, 1]);
         match op {
+            15 => {
+                // a variable is assigned a new object that is equal in content to the one it holds: the old object
+                // (still reachable through another name) and the new one are different objects
+                let k = h.forms.len();
+                if ch.chance(1, 2) {
+                    let (v, a) = (format!("rv{}", k), format!("ra{}", k));
+                    h.forms.push(d(&v, app("vector", vec![Expr::Int(0), Expr::Int(0)])));
+                    h.forms.push(d(&a, var(&v)));
+                    h.forms.push(Form::Expr(set(&v, app("vector", vec![Expr::Int(0), Expr::Int(0)]))));
+                    h.forms.push(Form::Expr(app("vector-set!", vec![var(&v), Expr::Int(0), Expr::Int(9)])));
+                    h.forms.push(Form::Expr(app("list", vec![app("vector-ref", vec![var(&a), Expr::Int(0)]), app("vector-ref", vec![var(&v), Expr::Int(0)]), app("eqv?", vec![var(&a), var(&v)])])));
+                } else {
+                    let (c, a) = (format!("rc{}", k), format!("rd{}", k));
+                    h.forms.push(d(&c, app("mk-counter", vec![Expr::Int(0)])));
+                    h.forms.push(d(&a, var(&c)));
+                    h.forms.push(Form::Expr(set(&c, app("mk-counter", vec![Expr::Int(0)]))));
+                    h.forms.push(Form::Expr(app("list", vec![app(&c, vec![]), app(&c, vec![]), app(&a, vec![])])));
+                }
+                h.label("assigned-an-equal-but-distinct-object");
+            }
+            16 => {
+                // a closure leaves its defining call only through an assignment / a vector slot while the call itself
+                // returns a number; it is called afterwards
+                let k = h.forms.len();
+                let (hold, inst) = (format!("hold{}", k), format!("install{}", k));
+                h.forms.push(d(&hold, app("vector", vec![Expr::Bool(false), Expr::Bool(false)])));
+                h.forms.push(dp(
+                    &inst,
+                    &["init"],
+                    vec![
+                        app("vector-set!", vec![var(&hold), Expr::Int(0), lam(&[], vec![var("init")])]),
+                        app("vector-set!", vec![var(&hold), Expr::Int(1), lam(&["dx"], vec![inc("init", var("dx")), var("init")])]),
+                        Expr::Int(0),
+                    ],
+                ));
+                h.forms.push(Form::Expr(app(&inst, vec![Expr::Int(ch.range(1, 9) as i32)])));
+                h.forms.push(Form::Expr(Expr::App(Box::new(app("vector-ref", vec![var(&hold), Expr::Int(0)])), vec![])));
+                h.forms.push(Form::Expr(Expr::App(Box::new(app("vector-ref", vec![var(&hold), Expr::Int(1)])), vec![Expr::Int(2)])));
+                h.forms.push(Form::Expr(Expr::App(Box::new(app("vector-ref", vec![var(&hold), Expr::Int(0)])), vec![])));
+                h.label("closure-escapes-through-a-side-effect");
+            }
             14 => {
                 // a vector stored into one of its own slots: the slot is one more name for the same vector. Only
                 // acyclic values are read back (the vector itself is never returned or printed).
